@@ -115,9 +115,149 @@ def setj(node, **kw):
         node.k = kw['k']
 
 
+PURE_CALLS = {'gdstk::gdsii_real_to_double', 'strlen', 'fabs', 'sqrt', 'cos', 'sin', 'tan', 'atan2', 'acos', 'asin', 'atan', 'llround', 'lround', 'round', 'floor', 'ceil', 'exp', 'log', 'pow', 'hypot', 'fmod',
+              'gdstk::get_layer', 'gdstk::get_type', 'gdstk::make_tag', 'gdstk::cplx_from_angle', 'gdstk::cross', 'gdstk::hash', 'strcmp', 'memcmp'}
+PURE_METHODS = ('length', 'length_sq', 'inner', 'cross', 'angle', 'ortho')
+_clone_id = [0]
+
+
+def pure_expr(e):
+    for x in e.walk():
+        if x.k in ('CompoundAssignOperator', 'CXXNewExpr', 'CXXDeleteExpr', 'CXXConstructExpr') and not (x.k == 'CXXConstructExpr' and 'Vec2' in (x.t or '')):
+            return False
+        if x.k == 'UnaryOperator' and x.op in ('++', '--', 'post++', 'post--'):
+            return False
+        if x.k == 'BinaryOperator' and x.op in ('=', '+=', '-=', '*=', '/=', '%=', '&=', '|=', '^=', '<<=', '>>=', ','):
+            return False
+        if x.k == 'CallExpr' and (x.callee or '') not in PURE_CALLS:
+            return False
+        if x.k == 'CXXMemberCallExpr' and (x.callee or '').split('::')[-1] not in PURE_METHODS:
+            return False
+        if x.k == 'CXXOperatorCallExpr' and x.op in ('=', '+=', '-=', '*=', '/=', '()'):
+            return False
+    return True
+
+
+def clone_node(n, fn, parent=None, role=None):
+    from .facts import Node
+    c = Node.__new__(Node)
+    _clone_id[0] -= 1
+    c.j = dict(n.j)
+    c.j['id'] = _clone_id[0]
+    c.j['orig'] = n.j.get('orig', n.id)
+    c.id = _clone_id[0]
+    c.k = n.k
+    c.l = n.l
+    c.fn = fn
+    c.parent = parent
+    c.role = role
+    c.rl = list(n.rl)
+    c.c = [clone_node(x, fn, c, r) if x is not None else None for x, r in zip(n.c, n.rl)]
+    fn.nodes[c.id] = c
+    return c
+
+
+def _keys_read(e):
+    from .flow import lvalue_key
+    out = set()
+    for x in e.walk():
+        if x.k in ('DeclRefExpr', 'MemberExpr'):
+            k = lvalue_key(x)
+            if k:
+                out.add(k)
+    return out
+
+
+def inline_temps(fn, only=None):
+    """N-TEMP  `const T t = e;` where t has no counterpart among the locals of the pinned version of the function (a temporary
+    introduced by an edit), e is pure and small, t is used at most four times and nothing e reads is written (and no impure call
+    runs) between the declaration and the uses -> every use of t is e; the declaration disappears. Temporaries that exist in
+    the pinned tree are left alone, so the tree of unchanged code is exactly what the rules were confirmed on."""
+    from .flow import lvalue_key, is_assign
+    changed = False
+    for comp in [x for x in fn.body.walk() if x.k == 'CompoundStmt']:
+        if comp.parent is None and comp is not fn.body:
+            continue
+        for st in [c for c in comp.c if c is not None]:
+            if st.k != 'DeclStmt' or len([x for x in st.c if x is not None]) != 1:
+                continue
+            v = st.c[0]
+            if v is None or v.k != 'VarDecl' or v.child('init') is None or not _const_var(v.t) or '[' in (v.t or '') or '&' in (v.t or ''):
+                continue
+            if only is not None and v.d not in only:
+                continue
+            t = (v.t or '')
+            if not (_scalar(t.replace('const', '').strip()) or 'Vec2' in t or t.replace('const', '').strip().startswith('gdstk::') and t.count('::') == 1 and False):
+                continue
+            init = v.child('init')
+            size = sum(1 for _ in init.walk())
+            if size > 24 or not pure_expr(init):
+                continue
+            uses = [x for x in fn.body.walk() if x.k == 'DeclRefExpr' and x.d == v.d]
+            if not uses or len(uses) > 4:
+                continue
+            # nothing the initialiser reads may change, and no impure call may run, between declaration and use
+            reads = _keys_read(init)
+            reads_memory = any((x.k == 'UnaryOperator' and x.op == '*') or x.k == 'ArraySubscriptExpr' or (x.k == 'MemberExpr' and x.arrow and strip(x.child('base')).k != 'CXXThisExpr') or
+                               (x.k == 'CXXOperatorCallExpr' and x.op == '[]') for x in init.walk())
+            lo = v.id
+            hi = max(u.id for u in uses)
+            region = [x for x in comp.walk() if lo < x.id <= hi]
+            for u in uses:
+                for a in u.ancestors():
+                    if a.k in ('ForStmt', 'WhileStmt', 'DoStmt') and not any(y is st for y in a.walk()):
+                        region += list(a.walk())
+            bad = False
+            for x in region:
+                if any(y is x for y in init.walk()):
+                    continue
+                if x.k in ('CallExpr', 'CXXMemberCallExpr', 'CXXOperatorCallExpr') and not pure_expr(x):
+                    # an impure call in between matters only if it can change what the initialiser reads: memory behind
+                    # pointers / array elements, the object itself (a call on `this`), or a local whose address it receives
+                    if reads_memory or (x.k == 'CXXMemberCallExpr' and x.child('obj') is not None and strip(x.child('obj')).k == 'CXXThisExpr') or x.k == 'CallExpr' and any(
+                            strip(a_).k == 'UnaryOperator' and strip(a_).op == '&' for a_ in x.args):
+                        bad = True
+                        break
+                    if any(lvalue_key(strip(a_)) in reads for a_ in x.args if '&' in (a_.t or '')):
+                        bad = True
+                        break
+                tgt = None
+                if x.k in ('BinaryOperator', 'CompoundAssignOperator') and x.op in ('=', '+=', '-=', '*=', '/=', '%=', '&=', '|=', '^=', '<<=', '>>='):
+                    tgt = x.child('lhs')
+                elif x.k == 'UnaryOperator' and x.op in ('++', '--', 'post++', 'post--'):
+                    tgt = x.child('sub')
+                if tgt is not None:
+                    tk = lvalue_key(strip(tgt))
+                    if tk is None or any(tk == r or r.startswith(tk) or tk.startswith(r.split('[')[0]) for r in reads) or strip(tgt).k in ('UnaryOperator', 'ArraySubscriptExpr'):
+                        if tk is None or strip(tgt).k in ('UnaryOperator', 'ArraySubscriptExpr') or any(tk == r or r.startswith(tk) for r in reads):
+                            bad = True
+                            break
+            if bad:
+                continue
+            for u in uses:
+                cl = clone_node(init, fn)
+                p_ = u.parent
+                # the use is usually wrapped in an lvalue-to-rvalue load: replace that wrapper
+                if p_ is not None and p_.k == 'ImplicitCastExpr' and p_.cast == 'LValueToRValue' and p_.parent is not None:
+                    replace_child(p_.parent, p_, cl)
+                elif p_ is not None:
+                    replace_child(p_, u, cl)
+            set_children(comp, [(c, 'x') for c in comp.c if c is not None and c is not st])
+            changed = True
+    return changed
+
+
 def normalise(fn):
     if not ENABLED or fn.body is None:
         return
+    _normalise(fn)
+    if not os.environ.get('GDSTK_SA_NO_TEMPS'):
+        new = new_locals(fn)
+        if new and inline_temps(fn, only=new):
+            _normalise(fn)
+
+
+def _normalise(fn):
     changed = True
     rounds = 0
     while changed and rounds < 6:
@@ -294,27 +434,65 @@ def _tkey(t):
     return (t or '').replace('const ', '').replace(' const', '').strip()
 
 
-def rename_to_baseline(fn):
-    if not ENABLED or fn.body is None or os.environ.get('GDSTK_SA_NO_RENAME'):
-        return
+def init_shape(v):
+    """coarse shape of a local's initialiser (root operator / callee), used together with the type to align locals"""
+    i = strip(v.child('init')) if v.child('init') is not None else None
+    if i is None:
+        return '-'
+    if i.k in ('BinaryOperator', 'UnaryOperator', 'CompoundAssignOperator', 'CXXOperatorCallExpr'):
+        return i.k[:3] + (i.op or '')
+    if i.k in ('CallExpr', 'CXXMemberCallExpr'):
+        return 'call:' + (i.callee or '').split('::')[-1]
+    if i.k in ('IntegerLiteral', 'FloatingLiteral', 'CXXBoolLiteralExpr', 'GNUNullExpr', 'InitListExpr', 'ImplicitValueInitExpr'):
+        return 'lit'
+    if i.k in ('MemberExpr', 'DeclRefExpr'):
+        return 'ref:' + (i.n or '')
+    return i.k[:6]
+
+
+def _akey(t, shape):
+    return _tkey(t) + '|' + shape
+
+
+def align(fn):
+    """[(baseline (name, type), current VarDecl)] for the locals that correspond, and the list of current locals"""
     base = _baseline().get(fkey(fn))
     if not base:
-        return
+        return None, []
     cur = locals_of(fn)
-    if [v.n for v in cur] == [b[0] for b in base]:
-        return
-    a = [_tkey(b[1]) for b in base]
-    b = [_tkey(v.t) for v in cur]
-    pairs_ = []
-    if a == b:
-        pairs_ = list(zip(base, cur))
+    out = []
+    if [_tkey(b[1]) for b in base] == [_tkey(v.t) for v in cur]:
+        out = list(zip(base, cur))       # same declaration sequence: only names can differ
     else:
+        a = [_akey(b[1], b[2] if len(b) > 2 else '-') for b in base]
+        b = [_akey(v.t, init_shape(v)) for v in cur]
         sm = difflib.SequenceMatcher(None, a, b, autojunk=False)
         for blk in sm.get_matching_blocks():
             for i in range(blk.size):
-                pairs_.append((base[blk.a + i], cur[blk.b + i]))
+                out.append((base[blk.a + i], cur[blk.b + i]))
+    return out, cur
+
+
+def new_locals(fn):
+    """decl ids of the locals that have no counterpart in the pinned version of the function"""
+    if os.environ.get('GDSTK_SA_NO_RENAME'):
+        return set()
+    pr, cur = align(fn)
+    if pr is None:
+        return set()
+    matched = {v.d for _, v in pr}
+    return {v.d for v in cur if v.d not in matched}
+
+
+def rename_to_baseline(fn):
+    if not ENABLED or fn.body is None or os.environ.get('GDSTK_SA_NO_RENAME'):
+        return
+    pairs_, cur = align(fn)
+    if not pairs_:
+        return
     mapping = {}
-    for (bn, bt), v in pairs_:
+    for bt_, v in pairs_:
+        bn = bt_[0]
         if v.n != bn:
             mapping[v.d] = bn
     if not mapping:
